@@ -1745,6 +1745,8 @@ async fn run_step(w: &mut World, step: &Value) {
             let sid = big(step, "sid", 0);
             let log = w.log.clone();
             let ms = u(step, "ms", 20000);
+            // `split`: the first byte of every stream goes out alone, a datagram follows, then the rest
+            let split = step.get("split").and_then(|v| v.as_bool()).unwrap_or(false);
             let h = tokio::spawn(async move {
                 let mut okc = 0u64;
                 let dl = Duration::from_millis(ms);
@@ -1755,6 +1757,15 @@ async fn run_step(w: &mut World, step: &Value) {
                         let mut b = gen::enc_varint(0x54);
                         b.extend(gen::enc_varint(sid));
                         b.extend_from_slice(&id.to_be_bytes());
+                        if split {
+                            let _ = sx.write_all(&b[..1]).await;
+                            tokio::time::sleep(Duration::from_millis(3)).await;
+                            let mut d = gen::enc_varint(sid / 4);
+                            d.push(0xdd);
+                            let _ = c.send_datagram(d.into());
+                            tokio::time::sleep(Duration::from_millis(3)).await;
+                            b.drain(..1);
+                        }
                         let _ = sx.write_all(&b).await;
                         let _ = sx.finish();
                         log.emit("peer", "opened", fields! {"kind" => "uni", "id" => v62(id)});
@@ -1767,6 +1778,15 @@ async fn run_step(w: &mut World, step: &Value) {
                         let mut b = gen::enc_varint(0x41);
                         b.extend(gen::enc_varint(sid));
                         b.extend_from_slice(&id.to_be_bytes());
+                        if split {
+                            let _ = sx.write_all(&b[..1]).await;
+                            tokio::time::sleep(Duration::from_millis(3)).await;
+                            let mut d = gen::enc_varint(sid / 4);
+                            d.push(0xdd);
+                            let _ = c.send_datagram(d.into());
+                            tokio::time::sleep(Duration::from_millis(3)).await;
+                            b.drain(..1);
+                        }
                         let _ = sx.write_all(&b).await;
                         let _ = sx.finish();
                         log.emit("peer", "opened", fields! {"kind" => "bi", "id" => v62(id)});
